@@ -703,6 +703,10 @@ class RowWiseModifiedBisectionSearch:
                 # continueLoop = True
                 # highT_e = T_lower
                 selected_specifier = lower_field_specifier
+                # until a smaller field is found to be sufficient, the full lower field is the selection
+                selected_coordinates = starting_field
+                selected_temp_excess = t_lower
+                selected_spacing = spacing_stop
                 i = 0
                 while i < self.max_iter:
                     nbh = (nbh_max + nbh_min) // 2
